@@ -68,7 +68,11 @@ fn run(input: RunInput) -> ScenFuture {
             if choice < 45 {
                 // arrival at the listener
                 let a = aff_of(&aff, k);
-                let count = model.len();
+                // strict configuration: the model's count; under loss connections may vanish at
+                // any time, so the count the listener itself reports right before the dial and
+                // right after it (without the newcomer) bound the count at the decision instant
+                let count_before = if lossy { l.net.peers().len() } else { model.len() };
+                let count = count_before;
                 let permit = admit(a, limit, count);
                 if a != Affinity::Unknown || limit.map(|l| count + 1 >= l).unwrap_or(false) {
                     decided += 1;
@@ -77,7 +81,9 @@ fn run(input: RunInput) -> ScenFuture {
                 sleep_ms(settle_ms).await;
                 desc = format!("arrive d{k} aff={a:?} count={count}/{limit:?} model={} got={}", if permit { "admit" } else { "refuse" }, if res.is_ok() { "ok" } else { "err" });
                 let key = format!("aff={a:?} limit={limit:?} count_vs_limit={}", limit.map(|l| if count < l { "below" } else if count == l { "at" } else { "above" }).unwrap_or("none"));
-                if res.is_ok() && !permit {
+                let count_after = l.net.peers().iter().filter(|p| **p != d.peer_id).count();
+                let permit_lossy = admit(a, limit, count_before.min(count_after));
+                if res.is_ok() && !permit && (!lossy || !permit_lossy) {
                     w.violate("inbound-admitted-against-the-rule", key.clone(), format!("step {step}: {desc}"));
                 }
                 if res.is_err() && permit && !lossy {
@@ -86,7 +92,7 @@ fn run(input: RunInput) -> ScenFuture {
                 if res.is_ok() {
                     model.insert(d.peer_id);
                 }
-                if !permit && l.net.peers().contains(&d.peer_id) && !model.contains(&d.peer_id) {
+                if !permit && !lossy && l.net.peers().contains(&d.peer_id) && !model.contains(&d.peer_id) {
                     w.violate("inbound-admitted-against-the-rule", key, format!("step {step}: the listener lists d{k} although {desc}"));
                 }
             } else if choice < 58 {
